@@ -61,7 +61,7 @@ impl Check for C07 {
             allow_empty: true,
             allow_arith_args: true,
             allow_distinct: true,
-            big_tables: cfg.tier == Tier::Thorough,
+            big_tables: if cfg.tier == Tier::Thorough { 6 } else { 50 },
             exact_floats: cfg.avoiding("c07.trigger.float_f32_precision") || cfg.avoiding("c07.trigger.float_where_epsilon"),
         };
         let table = gen_table(t, &c);
